@@ -33,6 +33,7 @@ RULE = ("corpus items = {C12 rules x 1..3 transformations (1:1 and 1:N field map
         "x one repeated process; distinct = distinct items; non-trivial = the item produced a query, an issue or an error record. "
         "Model cases: tracking sequences, add_condition trees, filter trees, rendered messages vs the Lean model."
         "; fixed regression inputs of every repaired determinism defect")
+RULE += '; round 5: `hashes_fields` items (several configured algorithms, values with / without a configured algorithm; error records listing the algorithms)'
 ASSUMPTIONS = [
     "CPython's hash randomisation and the random module are exercised by sampling (PYTHONHASHSEED 0..3 quick / 0..23 thorough, as many random seeds, one repeated start); the Lean theorems quantify over all enumerations and all fresh names",
     "validators needing network data (MITRE ATT&CK / D3FEND tag validators) are excluded",
@@ -296,7 +297,25 @@ def regression_items():
     return its
 
 
-GENS = [(gen_convert_c12, 22), (gen_convert_mapping_chain, 14), (gen_convert_filter, 12), (gen_convert_regex, 3), (gen_convert_addcond, 10),
+HASH_VALUES = ["MD5=987B65CD9B9F4E9A1AFD8F8B48CF64A7", "sha1=5F1CBC3D99558307BC1250D084FA968521482025", "IMPHASH=F34D5F2D4577ED6D9CEEC516C1F5A744",
+               "SHA256=" + "AB" * 32, "987B65CD9B9F4E9A1AFD8F8B48CF64A7", "nothash", "TLSH=ABC", "Sha512=" + "C" * 128]
+
+
+def gen_convert_hashes(rnd):
+    """`hashes_fields` with several configured algorithms: split items keep the order of the rule's values, and the error record of an
+    item without any configured algorithm lists the configured algorithms - both in the same order in every process"""
+    algos = rnd.sample(["MD5", "SHA1", "SHA256", "SHA512", "IMPHASH", "sha3", "TLSH", "Authentihash"], rnd.randint(2, 6))
+    docs = []
+    for i in range(rnd.randint(1, 3)):
+        vals = rnd.sample(HASH_VALUES, rnd.randint(1, 4))
+        key = rnd.choice(["Hashes", "Hashes|contains", "Hash", "Hashes|contains|all"])
+        docs.append({"title": f"h{i}", "logsource": {"category": "c"}, "detection": {"sel": {key: vals if len(vals) > 1 or rnd.random() < 0.5 else vals[0], "a": i},
+                                                                                       "condition": "sel"}})
+    t = {"id": "hf", "type": "hashes_fields", "valid_hash_algos": algos, "field_prefix": rnd.choice(["File", "", "hash."]), "drop_algo_prefix": rnd.random() < 0.3}
+    return {"kind": "convert", "docs": docs, "pipelines": [pipe([t])], "collect": rnd.random() < 0.8}
+
+
+GENS = [(gen_convert_hashes, 5), (gen_convert_c12, 22), (gen_convert_mapping_chain, 14), (gen_convert_filter, 12), (gen_convert_regex, 3), (gen_convert_addcond, 10),
         (gen_convert_corr, 5), (gen_load_malformed, 14), (gen_load_pipeline, 4), (gen_validate, 8), (gen_track, 6), (gen_regex, 2)]
 
 
